@@ -86,6 +86,7 @@ import (
 	"github.com/bufbuild/buf/private/pkg/wasm"
 	"github.com/bufbuild/verifharness/internal/hx"
 	"google.golang.org/protobuf/proto"
+	"gopkg.in/yaml.v3"
 	"google.golang.org/protobuf/types/descriptorpb"
 )
 
@@ -352,6 +353,8 @@ type migModule struct {
 	usesV1Beta1OnlyCategories bool
 	// stratum >= 0: the lint / breaking sections are one of migStrata instead of random ones.
 	stratum int
+	// fullSpace: the sections were drawn from the whole id / category space of the version.
+	fullSpace bool
 }
 
 func (m *migModule) multiRoot() bool { return len(m.units) > 1 }
@@ -365,6 +368,10 @@ type migCase struct {
 	dir, prevDir, prevMigDir string
 	// imp -> module index, over all files of both sides.
 	owner map[string]int
+	// explain (set by runMigrationCase): which of the lost / new annotations of module j are those
+	// of a recorded root cause in the module's own check section, judged on the rule SELECTION by
+	// the section G machinery (migchk.go); returns the class and the annotations it explains.
+	explain func(j int, lint bool, lost, gained []string) (class string, explainedLost, explainedGained []string)
 }
 
 var (
@@ -580,6 +587,13 @@ var migStrata = []struct {
 		lint: migStratumSection{use: []string{"DEFAULT"}, except: []string{"IMPORT_NO_WEAK"}}},
 	{lint: migStratumSection{use: []string{"DEFAULT"}, disabled: true}},
 	{breaking: migStratumSection{use: []string{"FILE"}, disabled: true}},
+	// a category of both versions in `except` whose v2 membership is larger (FILE_SAME_PACKAGE is in
+	// FILE only in v1beta1, in all four categories in v2): without and with a `use` list
+	{beta: true, breaking: migStratumSection{except: []string{"WIRE"}}},
+	{beta: true, breaking: migStratumSection{use: []string{"FILE"}, except: []string{"WIRE_JSON"}}},
+	// ignore_only keys that translate to the same v2 id (a deprecated rule and its replacements)
+	{deprecated: true, breaking: migStratumSection{use: []string{"FILE"},
+		ignoreOnly: []string{"FIELD_SAME_LABEL", "FIELD_SAME_CARDINALITY", "FIELD_WIRE_JSON_COMPATIBLE_CARDINALITY"}}},
 }
 
 func genMigModuleYAML(r *hx.Rand, m *migModule) {
@@ -631,6 +645,45 @@ func genMigModuleYAML(r *hx.Rand, m *migModule) {
 		m.usesDeprecatedIDs = st.deprecated
 		m.usesV1Beta1OnlyCategories = st.beta
 		m.yaml = b.String()
+		return
+	}
+	// A third of the modules that may (no v1 / v1beta1 mix in the workspace, see migLintUseCommon):
+	// sections over the WHOLE id and category space of the version as the real client lists it -
+	// every rule id, every category, deprecated ids, ids v2 does not have - in use, except and
+	// ignore_only (the generator of section G, migchk.go).
+	if migFull != nil && !m.mixed && r.Chance(1, 3) {
+		m.fullSpace = true
+		pathsFn := func() []string { return migPickPaths(r, paths, 1, 2) }
+		write := func(name string, sec gSection, extra func(*strings.Builder)) bool {
+			var body strings.Builder
+			migYAMLList(&body, "  ", "use", sec.Use)
+			migYAMLList(&body, "  ", "except", sec.Except)
+			migYAMLList(&body, "  ", "ignore", sec.Ignore)
+			migYAMLMap(&body, "  ", "ignore_only", sec.IgnoreOnly)
+			extra(&body)
+			if body.Len() > 0 {
+				b.WriteString(name + ":\n" + body.String())
+			}
+			return len(sec.Ignore) > 0 && sec.Ignore[0] == "."
+		}
+		var lintSec, breakingSec gSection
+		if len(paths) > 0 {
+			lintSec = migFull.randomSection(r, m.version, true, false, pathsFn)
+			breakingSec = migFull.randomSection(r, m.version, false, false, pathsFn)
+		}
+		lintSec.DisableBuiltin, breakingSec.DisableBuiltin = false, false
+		m.lintDisabled = write("lint", lintSec, func(body *strings.Builder) {
+			if r.Chance(1, 3) {
+				body.WriteString("  allow_comment_ignores: true\n")
+			}
+		})
+		m.breakingDisabled = write("breaking", breakingSec, func(body *strings.Builder) {})
+		m.usesDeprecatedIDs = migContainsAny(b.String(), migDeprecatedIDs)
+		m.usesV1Beta1OnlyCategories = beta
+		m.yaml = b.String()
+		if os.Getenv("C16_DEBUG") != "" {
+			fmt.Fprintf(os.Stderr, "full-space module %s:\n%s\n", m.dir, m.yaml)
+		}
 		return
 	}
 	// Categories and rules of v1beta1 that v2 does not have, and deprecated rule IDs, on a
@@ -1363,6 +1416,16 @@ func (c *migCase) compareAnnotations(
 				l = rest
 			}
 		}
+		if j >= 0 && c.explain != nil && (len(l) > 0 || len(g) > 0) && !disabled(c.modules[j]) && c.modules[j].version != "" {
+			// annotations whose rule the module's own section stopped selecting (resp. whose ignore_only
+			// paths changed) for a recorded root cause: reported under that cause's class
+			if cls, el, eg := c.explain(j, class == "migrate-lint-changed", l, g); cls != "" && len(el)+len(eg) > 0 {
+				reported = true
+				fail(cls, fmt.Sprintf("module %s: %d annotations lost (first %s), %d new (first %s)", c.modules[j].dir, len(el), migFirst(el), len(eg), migFirst(eg)))
+				l, _ = migSetDiff(l, el)
+				g, _ = migSetDiff(g, eg)
+			}
+		}
 		if len(l) == 0 && len(g) == 0 {
 			continue
 		}
@@ -1493,6 +1556,11 @@ func runMigrations(run *hx.Run, r *hx.Rand, n int) {
 	if err != nil {
 		panic(err)
 	}
+	if migFull == nil {
+		if migFull, err = newMigChkEnv(); err != nil {
+			panic(err)
+		}
+	}
 	if err := os.MkdirAll(base, 0o755); err != nil {
 		panic(err)
 	}
@@ -1605,6 +1673,7 @@ func runMigrationCase(run *migRec, env *migEnv, rr *hx.Rand, base string, i int)
 		os.RemoveAll(c.prevMigDir)
 	}()
 
+	c.explain = migExplainer(c, env)
 	if err := c.write(c.dir, false); err != nil {
 		panic(migHarnessError{err})
 	}
@@ -1650,6 +1719,9 @@ func runMigrationCase(run *migRec, env *migEnv, rr *hx.Rand, base string, i int)
 		}
 		if m.usesV1Beta1OnlyCategories {
 			run.Count("mig:module-with-v1beta1-only-categories")
+		}
+		if m.fullSpace {
+			run.Count("mig:module-with-full-id-space-sections")
 		}
 		if m.lock {
 			run.Count("mig:module-with-empty-buf-lock")
@@ -1878,4 +1950,79 @@ func hasIgnoreOnlyCategoryKey(configs map[string]string) bool {
 		}
 	}
 	return false
+}
+
+
+// migFull is the id / category space of every version and rule type as the real client lists it
+// (read-only after runMigrations set it).
+var migFull *migChkEnv
+
+// migExplainer judges the check sections of module j on their own: the module's lint and breaking
+// sections alone are migrated in memory (section G, migchk.go) and the rule selection before /
+// after is compared on the real rule lists.  Annotations of rules that the section stopped
+// selecting because a category named in `except` grew, or whose ignore_only paths changed because
+// two keys translate to the same v2 id, are attributed to that root cause.
+func migExplainer(c *migCase, env *migEnv) func(j int, lint bool, lost, gained []string) (string, []string, []string) {
+	type key struct {
+		j    int
+		lint bool
+	}
+	cache := map[key]*secVerdict{}
+	verdict := func(j int, lint bool) *secVerdict {
+		k := key{j, lint}
+		if v, ok := cache[k]; ok {
+			return v
+		}
+		cache[k] = nil
+		m := c.modules[j]
+		if migFull == nil || m.version == "" || m.version == "v2" {
+			return nil
+		}
+		var y yV1
+		if err := yaml.Unmarshal([]byte(m.yaml), &y); err != nil {
+			return nil
+		}
+		// the check sections only: no name, deps, roots (the translation depends on nothing else)
+		ob := migFull.observe(env.client, mustYAML(yV1{Version: m.version, Lint: y.Lint, Breaking: y.Breaking}))
+		if ob.status != "ok" || !ob.beforeOK || ob.obs[lint].afterErr != "" || ob.obs[lint].disabled || ob.obs[lint].disabledBefore {
+			return nil
+		}
+		cache[k] = migFull.judge(m.version, lint, ob.obs[lint])
+		return cache[k]
+	}
+	return func(j int, lint bool, lost, gained []string) (string, []string, []string) {
+		v := verdict(j, lint)
+		if v == nil {
+			return "", nil, nil
+		}
+		if strings.HasSuffix(v.selClass, "-except-category-grew") {
+			lostRules := strSet(v.lost)
+			var el []string
+			for _, a := range lost {
+				if lostRules[migAnnotationRule(a)] {
+					el = append(el, a)
+				}
+			}
+			if len(el) > 0 {
+				return v.selClass, el, nil
+			}
+		}
+		if v.ioClass == "migrate-ignore-only-key-collision" {
+			var el, eg []string
+			for _, a := range lost {
+				if v.ioRules[migAnnotationRule(a)] {
+					el = append(el, a)
+				}
+			}
+			for _, a := range gained {
+				if v.ioRules[migAnnotationRule(a)] {
+					eg = append(eg, a)
+				}
+			}
+			if len(el)+len(eg) > 0 {
+				return v.ioClass, el, eg
+			}
+		}
+		return "", nil, nil
+	}
 }
